@@ -96,3 +96,23 @@ def inside_modify(f, path, depth=5, _seen=None):
             continue
         ok = ok and inside_modify(f, cb.path, depth - 1, _seen)
     return ok
+
+
+def tx_body(f, outer_path, table, ops=("insert",)):
+    """(outer body, the body that runs inside outer's Store::modify transaction and performs `ops` on
+    `table`): the closure passed to modify, a function item passed to it, or a helper only they call"""
+    from . import mir
+    from .common import one_call
+    b = f.body(outer_path)
+    bi, t = one_call(b, r"store::fs::Store::modify")
+    roots = [d for d in (t["f"].get("tdefs") or []) if d and d in f.bodies]
+    if len(roots) != 1:
+        raise mir.AnchorMissing("%s does not pass one closure or function to modify" % outer_path)
+    types = table_types(f)
+    cands = []
+    for hb in f.local_callees(roots[0], depth=2, prefix="store::fs::"):
+        if any((call_table(ct, types) or (None, None))[:2] in [(table, o) for o in ops] for _, ct in hb.calls()):
+            cands.append(hb)
+    if len(cands) != 1:
+        raise mir.AnchorMissing("expected one body performing %s on %s inside %s's transaction, found %s" % (ops, table, outer_path, [c.path for c in cands]))
+    return b, cands[0]
